@@ -820,3 +820,205 @@ theorem components_eq_iff_forest {n : Nat} {adj : Nat → List Nat} (h : UOK n a
     omega
 
 end SkNet.Forest
+
+namespace SkNet.Forest
+open SkNet SkNet.Connectivity SkNet.Cycles
+
+/-! ### graphs with self-loops: the criterion as `get_cycles` uses it -/
+
+/-- the rows without their diagonal entry -/
+def dropLoops (adj : Nat → List Nat) : Nat → List Nat := fun u => (adj u).filter (· != u)
+
+theorem mem_dropLoops {adj : Nat → List Nat} {u v : Nat} : v ∈ dropLoops adj u ↔ v ∈ adj u ∧ v ≠ u := by
+  simp [dropLoops, List.mem_filter]
+
+/-- consecutive nodes differ -/
+def locDistinct : List Nat → Bool
+  | [] => true
+  | [_] => true
+  | x :: y :: l => x != y && locDistinct (y :: l)
+
+theorem locDistinct_of_nodup {l : List Nat} (h : l.Nodup) : locDistinct l = true := by
+  match l, h with
+  | [], _ => rfl
+  | [_], _ => rfl
+  | x :: y :: l, h =>
+    rw [locDistinct]
+    have h1 := List.nodup_cons.mp h
+    have hxy : x ≠ y := fun he => h1.1 (he ▸ List.mem_cons_self)
+    simp [hxy, locDistinct_of_nodup h1.2]
+
+theorem locDistinct_append_singleton {l : List Nat} {a : Nat} (h : locDistinct l = true)
+    (hl : l.getLast? ≠ some a) : locDistinct (l ++ [a]) = true := by
+  match l, h, hl with
+  | [], _, _ => rfl
+  | [x], _, hl =>
+    have : x ≠ a := fun he => hl (by rw [he]; rfl)
+    simp [locDistinct, this]
+  | x :: y :: l, h, hl =>
+    rw [locDistinct] at h
+    simp only [Bool.and_eq_true] at h
+    show locDistinct (x :: y :: (l ++ [a])) = true
+    rw [locDistinct]
+    simp only [Bool.and_eq_true]
+    exact ⟨h.1, locDistinct_append_singleton (l := y :: l) h.2 (by rwa [List.getLast?_cons_cons] at hl)⟩
+
+theorem isChain_dropLoops {adj : Nat → List Nat} (l : List Nat) (h : isChain adj l = true)
+    (hd : locDistinct l = true) : isChain (dropLoops adj) l = true := by
+  match l, h, hd with
+  | [], _, _ => rfl
+  | [_], _, _ => rfl
+  | x :: y :: l, h, hd =>
+    rw [isChain_cons_cons] at h ⊢
+    rw [locDistinct] at hd
+    simp only [Bool.and_eq_true, List.contains_iff_mem, bne_iff_ne, ne_eq] at h hd ⊢
+    exact ⟨mem_dropLoops.mpr ⟨h.1, fun he => hd.1 he.symm⟩, isChain_dropLoops (y :: l) h.2 hd.2⟩
+
+/-- a cycle with three nodes or more does not use a self-loop -/
+theorem simpleCycle_dropLoops {n : Nat} {adj : Nat → List Nat} {C : List Nat}
+    (hC : IsSimpleCycle n adj false C) (hlen : 3 ≤ C.length) : IsSimpleCycle n (dropLoops adj) false C := by
+  obtain ⟨h1, h2, h3, h4⟩ := hC
+  refine ⟨h1, h2, ?_, h4⟩
+  match C, h1, h3, hlen with
+  | hd :: a :: t, h1, h3, _ =>
+    have hch : isChain adj (hd :: a :: t ++ [hd]) = true := h3
+    apply isChain_dropLoops _ hch
+    apply locDistinct_append_singleton (locDistinct_of_nodup h1)
+    intro hl
+    have hmem : hd ∈ a :: t := by
+      rw [List.getLast?_cons_cons] at hl
+      exact List.mem_of_getLast? hl
+    exact (List.nodup_cons.mp h1).1 hmem
+
+theorem sum_indicator (n : Nat) (p : Nat → Bool) :
+    ((List.range n).map fun i => if p i then 1 else 0).sum = ((List.range n).filter p).length := by
+  induction n with
+  | zero => rfl
+  | succ n ih =>
+    rw [List.range_succ, List.map_append, List.sum_append, List.filter_append, List.length_append, ih]
+    cases hp : p n <;> simp [hp]
+
+theorem length_dropLoop (u : Nat) (l : List Nat) (hnd : l.Nodup) :
+    l.length = (l.filter (· != u)).length + (if l.contains u then 1 else 0) := by
+  induction l with
+  | nil => rfl
+  | cons a l ih =>
+    have h1 := List.nodup_cons.mp hnd
+    have ih' := ih h1.2
+    by_cases hau : a = u
+    · subst hau
+      have hnot : l.contains a = false := by simpa using h1.1
+      rw [hnot] at ih'
+      simp only [List.filter_cons, bne_self_eq_false, Bool.false_eq_true, ↓reduceIte, List.length_cons,
+        List.contains_cons, BEq.rfl, Bool.true_or]
+      simp only [Bool.false_eq_true, ↓reduceIte, Nat.add_zero] at ih'
+      omega
+    · have hb : (a != u) = true := by simpa using hau
+      have hc : (a :: l).contains u = l.contains u := by
+        simp only [List.contains_cons]
+        have : (u == a) = false := by simpa using (Ne.symm hau)
+        simp [this]
+      rw [hc]
+      simp only [List.filter_cons, hb, ↓reduceIte, List.length_cons]
+      omega
+
+end SkNet.Forest
+
+namespace SkNet.Forest
+open SkNet SkNet.Connectivity SkNet.Cycles
+
+/-- the counting identity behind the criterion: `#labels + #edges = n + k` where `k = 0` exactly for a forest -/
+theorem forest_count {n : Nat} {adj : Nat → List Nat} (h : UOK n adj) {labels : List Nat}
+    (hlab : IsLabelling n adj false labels) :
+    ∃ k : Nat, (npUnique labels).length + ((List.range n).map fun i => (adj i).length).sum / 2 = n + k ∧
+      (k = 0 ↔ ¬ ∃ C, IsSimpleCycle n adj false C ∧ 3 ≤ C.length) := by
+  have hiff := components_eq_iff_forest h hlab
+  have hok := edgesOf_ok h
+  have hnnz := nnz_eq_twice_edges h
+  have hhalf : ((List.range n).map fun i => (adj i).length).sum / 2 = (edgesOf n adj).length := by
+    rw [hnnz]; omega
+  have hcount := count_eq n (edgesOf n adj) hok.nodes
+  have hsame : ∀ x y, x < n → y < n →
+      (labels.getD x 0 = labels.getD y 0 ↔ (uf n (edgesOf n adj)).getD x 0 = (uf n (edgesOf n adj)).getD y 0) := by
+    intro x y hx hy
+    rw [hlab.2 x y hx hy, uf_spec n _ hok.nodes x y hx hy]
+    simp only [SameComp, Bool.false_eq_true, ↓reduceIte]
+    constructor
+    · intro hr
+      refine reach_congr (weakAdj_wf h.wf) ?_ hx hr
+      intro a ha b hb
+      apply (adjOf_edgesOf h ha b).mpr
+      rcases List.mem_append.mp hb with h1 | h1
+      · exact h1
+      · obtain ⟨hbn, hab⟩ := List.mem_filter.mp h1
+        exact h.sym b (List.mem_range.mp hbn) a (by simpa using hab)
+    · intro hr
+      refine reach_congr (adjOf_wf hok) ?_ hx hr
+      intro a ha b hb
+      exact List.mem_append_left _ ((adjOf_edgesOf h ha b).mp hb)
+  have hcnt := cnt_eq_of_same_classes hlab.1 (uf_length n _) hsame
+  refine ⟨closing n (edgesOf n adj), by rw [hhalf, hcnt]; exact hcount, ?_⟩
+  rw [← hiff, hhalf, hcnt]
+  omega
+
+/-- ★ the criterion as `get_cycles` uses it, self-loops counted among the stored entries: when it holds there is no
+    cycle with three nodes or more -/
+theorem no_cycle_of_criterion {n : Nat} {adj : Nat → List Nat}
+    (hwf : ∀ u, u < n → ∀ v ∈ adj u, v < n) (hsym : ∀ u, u < n → ∀ v ∈ adj u, u ∈ adj v)
+    (hnodup : ∀ u, u < n → (adj u).Nodup) {labels : List Nat} (hlab : IsLabelling n adj false labels)
+    (hcrit : ((npUnique labels).length : Int) =
+      (n : Int) - (((((List.range n).map fun i => (adj i).length).sum / 2 : Nat)) : Int)) :
+    ¬ ∃ C, IsSimpleCycle n adj false C ∧ 3 ≤ C.length := by
+  -- the loop-free part
+  have huok : UOK n (dropLoops adj) := by
+    refine ⟨?_, ?_, ?_, ?_⟩
+    · intro u hu v hv; exact hwf u hu v (mem_dropLoops.mp hv).1
+    · intro u hu v hv
+      obtain ⟨h1, h2⟩ := mem_dropLoops.mp hv
+      exact mem_dropLoops.mpr ⟨hsym u hu v h1, Ne.symm h2⟩
+    · intro u _ hm; exact (mem_dropLoops.mp hm).2 rfl
+    · intro u hu; exact (List.filter_sublist).nodup (hnodup u hu)
+  have hlab' : IsLabelling n (dropLoops adj) false labels := by
+    refine ⟨hlab.1, fun x y hx hy => ?_⟩
+    rw [hlab.2 x y hx hy]
+    simp only [SameComp, Bool.false_eq_true, ↓reduceIte]
+    constructor
+    · have key : ∀ z, Reach (weakAdj n adj) x z → Reach (weakAdj n (dropLoops adj)) x z := by
+        intro z hr
+        induction hr with
+        | refl => exact Reach.refl _
+        | @tail a b hp he ih =>
+          by_cases hab : b = a
+          · rw [hab]; exact ih
+          · refine Reach.tail ih ?_
+            rcases List.mem_append.mp he with h1 | h1
+            · exact List.mem_append_left _ (mem_dropLoops.mpr ⟨h1, hab⟩)
+            · obtain ⟨hbn, hmem⟩ := List.mem_filter.mp h1
+              refine List.mem_append_right _ (List.mem_filter.mpr ⟨hbn, ?_⟩)
+              have : a ∈ adj b := by simpa using hmem
+              simpa using mem_dropLoops.mpr ⟨this, Ne.symm hab⟩
+      exact key y
+    · intro hr
+      refine SkNet.Cycles.Reach.mono ?_ hr
+      intro a b hb
+      rcases List.mem_append.mp hb with h1 | h1
+      · exact List.mem_append_left _ (mem_dropLoops.mp h1).1
+      · obtain ⟨hbn, hmem⟩ := List.mem_filter.mp h1
+        refine List.mem_append_right _ (List.mem_filter.mpr ⟨hbn, ?_⟩)
+        have : a ∈ dropLoops adj b := by simpa using hmem
+        simpa using (mem_dropLoops.mp this).1
+  obtain ⟨k, hk, hk0⟩ := forest_count huok hlab'
+  -- stored entries = entries off the diagonal + self-loops
+  have hsplit : ((List.range n).map fun i => (adj i).length).sum =
+      ((List.range n).map fun i => (dropLoops adj i).length).sum +
+        ((List.range n).filter fun u => (adj u).contains u).length := by
+    rw [← sum_indicator, ← sum_map_add]
+    apply sum_map_congr
+    intro i hi
+    exact length_dropLoop i (adj i) (hnodup i (List.mem_range.mp hi))
+  have heven := nnz_eq_twice_edges huok
+  have hk' : k = 0 := by omega
+  intro ⟨C, hC, hlen⟩
+  exact (hk0.mp hk') ⟨C, simpleCycle_dropLoops hC hlen, hlen⟩
+
+end SkNet.Forest
